@@ -403,7 +403,7 @@ func main() {
 	runner.Main(&runner.Harness{
 		ID:    "C10",
 		Level: "model_checking",
-		Rule: "every pool of size 0..3 over 8 upstream state kinds (idle/1/2 connections, unhealthy, failed>=max_fails, full, two-peer healthy, two-peer with one peer down), size 4 over 6 (8 thorough) kinds, size 5 over 4 kinds (thorough), sizes 5..8 over all available/unavailable vectors; x every policy (first; round_robin from start counters incl. the 2^32 wrap-around, 2n+1 calls; ip_hash for 6 client addresses incl. IPv6, zone, unix, UDP; random, least_conn, random_choose with choose in {default,2,3,n,n+1}) x EVERY sequence of random draws (math/rand redirected to the explorer); reference model = filter of the pool by the kind's availability; non-trivial = pools with both available and unavailable upstreams",
+		Rule:  "every pool of size 0..3 over 8 upstream state kinds (idle/1/2 connections, unhealthy, failed>=max_fails, full, two-peer healthy, two-peer with one peer down), size 4 over 6 (8 thorough) kinds, size 5 over 4 kinds (thorough), sizes 5..8 over all available/unavailable vectors; x every policy (first; round_robin from start counters incl. the 2^32 wrap-around, 2n+1 calls; ip_hash for 6 client addresses incl. IPv6, zone, unix, UDP; random, least_conn, random_choose with choose in {default,2,3,n,n+1}) x EVERY sequence of random draws (math/rand redirected to the explorer); reference model = filter of the pool by the kind's availability; non-trivial = pools with both available and unavailable upstreams",
 		Assumptions: []string{
 			"weakrand.Int() is only used modulo small counts: its domain is modelled as 0..11 (all residues mod 1,2,3,4,6,12)",
 			"the 2^-32 case where every HRW hash is 0 is outside the enumerated addresses",
